@@ -1092,6 +1092,46 @@ def _c15_bootline_ok():
     return "true" if ok else "false"
 
 
+# ---- C16 : transports ----------------------------------------------------------------------------------
+
+
+@fact("proxy_master_ok", "bool", "false")
+def _proxy_master_ok():
+    """ProxyIO: read(n) is a channel-file read on the io channel, write(data) sends one item, every control operation
+    is one request on the control channel answered once"""
+    init = _src(find("gateway_io.py", "ProxyIO.__init__"))
+    ok = "self.controlchan = proxy_channel.gateway.newchannel()" in init and "proxy_channel.send(self.controlchan)" in init
+    ok = ok and "self.iochan = proxy_channel" in init and "self.iochan_file = self.iochan.makefile('r')" in init
+    ok = ok and [_src(n) for n in _body_nodoc(find("gateway_io.py", "ProxyIO.read"))] == ["return self.iochan_file.read(nbytes)"]
+    ok = ok and [_src(n) for n in _body_nodoc(find("gateway_io.py", "ProxyIO.write"))] == ["self.iochan.send(data)"]
+    ok = ok and [_src(n) for n in _body_nodoc(find("gateway_io.py", "ProxyIO._controll"))] == ["self.controlchan.send(event)", "return self.controlchan.receive()"]
+    for meth, ev in (("close_write", "RIO_CLOSE_WRITE"), ("kill", "RIO_KILL"), ("wait", "RIO_WAIT"), ("remoteaddress", "RIO_REMOTEADDRESS")):
+        t = _src(find("gateway_io.py", "ProxyIO." + meth))
+        ok = ok and t.count("self._controll(%s)" % ev) == 1 and t.count("_controll(") == 1
+    mk = _src([n for n in find("gateway_base.py", "Channel").body if isinstance(n, ast.FunctionDef) and n.name == "makefile"][-1])
+    ok = ok and "if mode == 'w':\n        return ChannelFileWrite(channel=self, proxyclose=proxyclose)\n    elif mode == 'r':\n        return ChannelFileRead(channel=self, proxyclose=proxyclose)" in mk
+    ok = ok and [_src(n) for n in _body_nodoc(find("gateway_base.py", "ChannelFileWrite.write"))] == ["self.channel.send(out)"]
+    return "true" if ok else "false"
+
+
+@fact("proxy_forwarder_ok", "bool", "false")
+def _proxy_forwarder_ok():
+    """serve_proxy_io: every item from the master is written to the sub unchanged (callback), the bootstrap byte is
+    read from the sub and forwarded first, then every message read from the sub is re-emitted as one item until
+    EOFError; each control request performs the matching sub_io operation once and answers once"""
+    f = find("gateway_io.py", "serve_proxy_io")
+    t = _src(_Strip().visit(__import__("copy").deepcopy(f)))
+    need = ["sub_io = create_io(spec, execmodel)", "def forward_to_sub(data: bytes) -> None:\n        sub_io.write(data)", "proxy_channelX.setcallback(forward_to_sub)",
+            "control_chan.setcallback(control)", "forward_to_master_file = proxy_channelX.makefile('w')", "initial = sub_io.read(1)", "assert initial == b'1', initial",
+            "forward_to_master_file.write(initial)",
+            "while True:\n        try:\n            message = Message.from_io(sub_io)\n        except EOFError:\n            break\n        message.to_io(forward_to_master_file)",
+            "if data == RIO_WAIT:\n            control_chan.send(sub_io.wait())\n        elif data == RIO_KILL:\n            sub_io.kill()\n            control_chan.send(None)\n        elif data == RIO_REMOTEADDRESS:\n            control_chan.send(sub_io.remoteaddress)\n        elif data == RIO_CLOSE_WRITE:\n            sub_io.close_write()\n            control_chan.send(None)"]
+    ok = all(x in t for x in need)
+    mk = _src(find("multi.py", "Group.makegateway"))
+    ok = ok and "proxy_channel = master.remote_exec(gateway_io)" in mk and "proxy_io_master = gateway_io.ProxyIO(proxy_channel, self.execmodel)" in mk
+    return "true" if ok else "false"
+
+
 # ---- C18 : channel ids -------------------------------------------------------------------------------
 
 
@@ -1220,6 +1260,9 @@ DIGESTS = [
     ("multi.py", "Group._unregister"),
     ("multi.py", "Group.__getitem__"),
     ("multi.py", "Group.__contains__"),
+    ("gateway_io.py", "ProxyIO"),
+    ("gateway_io.py", "serve_proxy_io"),
+    ("gateway_socket.py", "SocketIO"),
     ("rsync.py", "RSync"),
     ("rsync_remote.py", "serve_rsync"),
     ("gateway_base.py", "Channel.setcallback"),
